@@ -171,7 +171,7 @@ class DocGen:
                     for _ in range(r.randrange(0, 3)):
                         n = cols + (1 if r.random() < 0.04 else 0)
                         self.emit(self.ind() + "|" + "|".join(
-                            " " + r.choice(["1", "x y", "\\|", "$1", "\\\\", "<b>", "é"]) + " " for _ in range(n)) + "|")
+                            " " + r.choice(["1", "x y", "\\|", "$1", "\\\\", "<b>", "é", "C:\\\\dir\\\\file", "x\\\\1", "\\\\d+\\\\g<0>"]) + " " for _ in range(n)) + "|")
 
     def rule(self):
         r = self.rng
@@ -274,7 +274,7 @@ def permuted_examples(rng: random.Random) -> str:
     """outlines whose examples blocks reuse the same row values under different / permuted headers,
     with placeholders in name, step text, data table cells, doc string content and media type"""
     hs = rng.sample(["a", "b", "c", "from", "to", "a.b", "x y"], rng.randrange(1, 4))
-    vals = [rng.choice(["1", "2", "x y", "<a>", "\\\\", "$1", "v"]) for _ in hs]
+    vals = [rng.choice(["1", "2", "x y", "<a>", "\\\\", "$1", "v", "C:\\\\new\\\\table", "p\\\\1"]) for _ in hs]
     tmpl = " ".join(f"<{h}>" for h in rng.sample(hs + ["a", "b", "zz"], min(3, len(hs) + 1)))
     lines = ["Feature: f", "  Background:", "    Given bg <a> <from>"] if rng.random() < 0.5 else ["Feature: f"]
     lines += [f"  Scenario Outline: name {tmpl}", f"    Given step {tmpl}", "      | c <a> | <b> |  <to> |",
